@@ -243,6 +243,13 @@ theorem resetW_refines (s : SketchW) : (resetW s).map abs = Sketch.reset false (
 
 /-! ## `increment` -/
 
+/-- `bump` on an explicit record with abstract fields (nothing for the kernel to unfold). -/
+theorem bump_mk (a b : Nat) (t : Array Nat) (d : Nat) (hash : UInt64) (x : Array Nat) (y : Bool)
+    (hb : Sketch.bumpTable (Sketch.mk a b t d) hash = (x, y)) :
+    Sketch.bump (Sketch.mk a b t d) hash = Sketch.mk a b x (if y = true then d + 1 else d) := by
+  unfold Sketch.bump
+  rw [hb]
+
 theorem SketchW_increment_refines (s : SketchW) (h : UInt64) :
     (incrementW s h).map abs = Sketch.increment false (abs s) h := by
   rw [Sketch.increment_eq_bump]
@@ -260,8 +267,8 @@ theorem SketchW_increment_refines (s : SketchW) (h : UInt64) :
     by_cases ha : r.2 = true
     · have hbump : Sketch.bump (abs s) h
           = abs (SketchW.mk s.sampleSize s.mask r.1 (s.size + 1)) := by
-        rw [Sketch.bump_of_added _ _ (by rw [hb2]; exact ha), hb]
-        rfl
+        rw [abs_eta s] at hb
+        rw [abs_eta s, abs_mk, bump_mk _ _ _ _ h _ _ hb, if_pos ha]
       rw [if_pos ha, if_pos ha, abs_size, abs_sampleSize, hbump]
       by_cases hov : s.size + 1 > U32_MAX
       · rw [if_pos hov, if_pos hov]; rfl
@@ -277,8 +284,8 @@ theorem SketchW_increment_refines (s : SketchW) (h : UInt64) :
           rfl
     · have hbump : Sketch.bump (abs s) h
           = abs (SketchW.mk s.sampleSize s.mask r.1 s.size) := by
-        rw [Sketch.bump_of_not_added _ _ (by rw [hb2]; exact ha), hb]
-        rfl
+        rw [abs_eta s] at hb
+        rw [abs_eta s, abs_mk, bump_mk _ _ _ _ h _ _ hb, if_neg ha]
       rw [if_neg ha, if_neg ha, hbump]
       rfl
 
